@@ -104,6 +104,7 @@ class Check:
         self.trusted = set()
         self.no_replay = bool(os.environ.get('VERIF_NO_REPLAY'))
         self.jobs = int(os.environ.get('VERIF_JOBS', '0') or 0) or min(16, os.cpu_count() or 1)
+        self.isolate = os.environ.get('VERIF_ISOLATE', '1') != '0'
         kf = os.path.join(VERIF, 'known_findings.json')
         self.known_findings = json.load(open(kf)) if os.path.exists(kf) else {'findings': []}
 
@@ -112,7 +113,81 @@ class Check:
         return self.tier == 'thorough'
 
     # ---- running one obligation
-    def run(self, name, prog, harness, bounds=None, intr=None, pats=None, setup=None, merge=None, pre_run=None, parallel=True, **xopts):
+    def run(self, name, prog, harness, **kw):
+        """run one obligation.  With process forking enabled the whole obligation runs in a child forked from the (small, clean)
+        root process, so that the heap grown by one obligation does not tax the forks of the next one."""
+        parallel = kw.get('parallel', True)
+        if not (self.jobs > 1 and parallel and self.isolate):
+            return self.run_inner(name, prog, harness, **kw)
+        import pickle, tempfile
+        sys.stdout.flush()
+        fd, path = tempfile.mkstemp(prefix='verif-ob-', dir='/dev/shm' if os.path.isdir('/dev/shm') else None)
+        os.close(fd)
+        pid = os.fork()
+        if pid == 0:
+            code = 0
+            try:
+                self.obligations, self.samples, self.known, self.modelgaps = [], [], [], []
+                self.executed, self.nqueries, self.solver_time, self.paths, self.discharged, self.reach, self.replayed = {}, 0, 0.0, 0, 0, 0, 0
+                ob = self.run_inner(name, prog, harness, **kw)
+                out = dict(name=ob.name, bounds=ob.bounds, paths=ob.paths, discharged=ob.discharged, reach=ob.reach, wall=ob.wall, stats=ob.stats,
+                           inconclusive=ob.inconclusive, sample_assertions=ob.sample_assertions, witnesses=getattr(ob, 'witnesses', None),
+                           violations=[(v.obligation, v.label, v.model_desc, v.replay, v.reproduced) for v in ob.violations],
+                           unsupported=ob.xp.unsupported, fork_sites=ob.xp.fork_sites,
+                           chk=dict(executed=self.executed, nqueries=self.nqueries, solver_time=self.solver_time, known=self.known,
+                                    modelgaps=self.modelgaps, replayed=self.replayed, samples=self.samples))
+                with open(path, 'wb') as f:
+                    pickle.dump(out, f)
+            except BaseException:
+                code = 1
+                try:
+                    with open(path, 'wb') as f:
+                        pickle.dump({'error': traceback.format_exc()[-2000:]}, f)
+                except BaseException:
+                    pass
+            sys.stdout.flush()
+            os._exit(code)
+        os.waitpid(pid, 0)
+        ob = Obligation(self, name, kw.get('bounds') or {})
+        ob.xp = type('XP', (), {'unsupported': {}, 'fork_sites': {}, 'schema': None})()
+        try:
+            with open(path, 'rb') as f:
+                out = pickle.load(f)
+        except Exception:
+            out = {'error': 'obligation worker left no result'}
+        finally:
+            try:
+                os.unlink(path)
+            except OSError:
+                pass
+        if 'error' in out:
+            ob.inconclusive.append('machinery error: ' + out['error'])
+            print('INCONCLUSIVE property=%s obligation=%s %s' % (self.prop, name, out['error'].splitlines()[-1][:300]))
+        else:
+            ob.bounds, ob.paths, ob.discharged, ob.reach, ob.wall, ob.stats = out['bounds'], out['paths'], out['discharged'], out['reach'], out['wall'], out['stats']
+            ob.inconclusive, ob.sample_assertions = out['inconclusive'], out['sample_assertions']
+            if out['witnesses'] is not None:
+                ob.witnesses = out['witnesses']
+            ob.violations = [Violation(*v) for v in out['violations']]
+            ob.xp.unsupported, ob.xp.fork_sites = out['unsupported'], out['fork_sites']
+            c = out['chk']
+            for k, v in c['executed'].items():
+                self.executed[k] = self.executed.get(k, 0) + v
+            self.nqueries += c['nqueries']
+            self.solver_time += c['solver_time']
+            self.replayed += c['replayed']
+            self.modelgaps += c['modelgaps']
+            self.samples += c['samples']
+            for k in c['known']:
+                if k not in self.known:
+                    self.known.append(k)
+            self.paths += ob.paths
+            self.discharged += ob.discharged
+            self.reach += ob.reach
+        self.obligations.append(ob)
+        return ob
+
+    def run_inner(self, name, prog, harness, bounds=None, intr=None, pats=None, setup=None, merge=None, pre_run=None, parallel=True, **xopts):
         """harness(ex, ob) explores paths; it calls ob.verify(ex, label, formula, ...)"""
         ob = Obligation(self, name, bounds or {})
         xp = Explorer(prog, intrinsics=dict(stdlib.INTR, **(intr or {})), patterns=list(pats or []) + stdlib.PATS, **xopts)
@@ -349,7 +424,7 @@ class Obligation:
             self.discharged += 1
             if len(self.sample_assertions) < 2:
                 self.sample_assertions.append({'assertion': label, 'verdict': 'unsat: holds on this path for all symbolic values',
-                                               'path_condition_conjuncts': len(ex.pc), 'negated_assertion': str(neg)[:300]})
+                                               'path_condition_conjuncts': len(ex.pc)})
             return True
         if r == z3.unknown:
             self.inconclusive.append('solver unknown at assertion %s' % label)
